@@ -41,22 +41,22 @@ def step (d : DSt) (w : List String) : DSt × List String :=
   | ["enbc", t] =>
     match t.toNat? with
     | some t => match d.s.enableByCount t with
-      | .ok s' => ({ d with s := s' }, [showSt s' t])
+      | .ok s' => ({ d with s := s' }, ["ok"])
       | .error e => (d, [s!"err {e}"])
     | none => (d, ["bad-op"])
   | ["disbc", t] =>
     match t.toNat? with
-    | some t => let s' := d.s.disableByCount t; ({ d with s := s' }, [showSt s' t])
+    | some t => let s' := d.s.disableByCount t; ({ d with s := s' }, ["ok"])
     | none => (d, ["bad-op"])
   | ["enable", t] =>
     match t.toNat? with
     | some t => match d.s.enable t with
-      | .ok s' => ({ d with s := s' }, [showSt s' t])
+      | .ok s' => ({ d with s := s' }, ["ok"])
       | .error e => (d, [s!"err {e}"])
     | none => (d, ["bad-op"])
   | ["disable", t] =>
     match t.toNat? with
-    | some t => let s' := d.s.disable t; ({ d with s := s' }, [showSt s' t])
+    | some t => let s' := d.s.disable t; ({ d with s := s' }, ["ok"])
     | none => (d, ["bad-op"])
   | ["state", t] =>
     match t.toNat? with
